@@ -39,6 +39,10 @@ func checkC07(w *World, r *Report) {
 	r.Rule("R07.4", "no blocking channel operation in closures invoked under a mutex", 2)
 	r.Rule("R07.5", "piggy-backed acknowledgements agree on both ends", 4)
 	r.Rule("R07.6", "chunking stride is positive", 1)
+	r.Rule("R07.7", "packets are released in order, once, each advancing the expected number by one", 3)
+	r.Rule("R07.8", "outgoing packets are numbered consecutively under the mutex", 1)
+	r.Rule("R07.9", "packets are retired only on a matching acknowledgement; the oldest is (re)sent first", 2)
+	r.Rule("R07.10", "a write succeeds only after its packets were acknowledged", 1)
 
 	fns := dnsPkgFuncs(w)
 	c07WrapSafe(w, r, fns)
@@ -47,6 +51,7 @@ func checkC07(w *World, r *Report) {
 	c07Notifiers(w, r, fns)
 	c07Piggyback(w, r)
 	c07Stride(w, r)
+	c07Bookkeeping(w, r)
 }
 
 // seqFields: struct fields of type uint16 that carry sequence numbers (by
@@ -655,4 +660,288 @@ func c07Stride(w *World, r *Report) {
 	}
 	r.Check(guarded, "R07.6", key, w.Pos(loopSlice.Pos()), "the chunking loop runs only where mtu > 0 was established",
 		"the chunking loop advances by mtu without any guarantee that mtu > 0: with fragment size 0 (accepted from the peer's set-options request) the loop appends empty chunks forever")
+}
+
+// ---------------------------------------------------------------- R07.7..R07.10
+// Bookkeeping facts of the two queues that every history relies on.
+
+func c07Bookkeeping(w *World, r *Report) {
+	inQ := w.Named("internal/streams/dns/util", "InQueue")
+	outQ := w.Named("internal/streams/dns/util", "OutQueue")
+	pkt := w.Named("internal/streams/dns/util", "Packet")
+	if inQ == nil || outQ == nil || pkt == nil {
+		r.Undecided("R07.7", "anchor", "-", "anchor unresolved: InQueue/OutQueue/Packet")
+		return
+	}
+	inNext, outNext := fieldOf(inQ, "NextSeqNo"), fieldOf(outQ, "NextSeqNo")
+	inBuf := fieldOf(inQ, "in")
+	seqF, dataF := fieldOf(pkt, "SeqNo"), fieldOf(pkt, "Data")
+
+	// R07.7 appendPacket: exactly one "+1" store to NextSeqNo and one append of the packet's Data to the input buffer, on every path
+	if fn := w.SSAFunc(methodOf(inQ, "appendPacket")); fn == nil {
+		r.Undecided("R07.7", "method:(*streams/dns/util.InQueue).appendPacket", "-", "anchor unresolved")
+	} else {
+		isEv := func(in ssa.Instruction) bool {
+			st, ok := in.(*ssa.Store)
+			if !ok {
+				return false
+			}
+			fa, ok := st.Addr.(*ssa.FieldAddr)
+			return ok && (fieldVarOf(fa) == inNext || fieldVarOf(fa) == inBuf)
+		}
+		bad := ""
+		n := 0
+		enumPaths(fn, nil, isEv, nil, func(e pathExit) {
+			if _, ok := e.Last.(*ssa.Return); !ok {
+				return
+			}
+			n++
+			incs, apps := 0, 0
+			for _, ev := range e.State.Events {
+				st := ev.(*ssa.Store)
+				fv := fieldVarOf(st.Addr.(*ssa.FieldAddr))
+				if fv == inNext {
+					bo, ok := st.Val.(*ssa.BinOp)
+					c, isC := int64(0), false
+					if ok {
+						c, isC = constIntVal(bo.Y)
+					}
+					if ok && bo.Op == token.ADD && isC && c == 1 && isLoadOfField(bo.X, inNext) {
+						incs++
+					} else {
+						bad = fmt.Sprintf("%s: the expected sequence number is not advanced by exactly one", w.Pos(st.Pos()))
+					}
+				} else {
+					// append(q.in, val.Data...)
+					okApp := false
+					if c, ok := st.Val.(*ssa.Call); ok {
+						if b, ok := c.Call.Value.(*ssa.Builtin); ok && b.Name() == "append" && isLoadOfField(c.Call.Args[0], inBuf) && isLoadOfField(c.Call.Args[1], dataF) {
+							okApp = true
+						}
+					}
+					if okApp {
+						apps++
+					} else {
+						bad = fmt.Sprintf("%s: the input buffer is not extended by exactly the packet's data", w.Pos(st.Pos()))
+					}
+				}
+			}
+			if incs != 1 || apps != 1 {
+				bad = fmt.Sprintf("a path through appendPacket advances the expected number %d time(s) and appends data %d time(s) (want 1 and 1)", incs, apps)
+			}
+		})
+		r.Check(bad == "" && n > 0, "R07.7", "method:(*streams/dns/util.InQueue).appendPacket", w.Pos(fn.Pos()), "each released packet appends exactly its data and advances the expected number by one", bad)
+	}
+	// R07.7b: in Append, appendPacket is called only under SeqNo == NextSeqNo of the very packet
+	if fn := w.SSAFunc(methodOf(inQ, "Append")); fn != nil {
+		ap := methodOf(inQ, "appendPacket")
+		bad := ""
+		n := 0
+		for _, c := range callsIn(fn) {
+			if sCallee(c) != ap {
+				continue
+			}
+			n++
+			arg := c.Common().Args[1]
+			guard := func(v ssa.Value) bool {
+				b, ok := v.(*ssa.BinOp)
+				if !ok || b.Op != token.EQL {
+					return false
+				}
+				for _, pr := range [][2]ssa.Value{{b.X, b.Y}, {b.Y, b.X}} {
+					fa := asFieldAddr(pr[0])
+					if fa != nil && fieldVarOf(fa) == seqF && isLoadOfField(pr[1], inNext) {
+						// the packet compared is the packet appended
+						for _, r1 := range provenance(fa.X, provOpts{}) {
+							for _, r2 := range provenance(arg, provOpts{}) {
+								if r1 == r2 {
+									return true
+								}
+							}
+						}
+						if fa.X == arg {
+							return true
+						}
+					}
+				}
+				return false
+			}
+			if !dominatedByCond(fn, c, guard, true) {
+				bad = fmt.Sprintf("%s: a packet is released to the reader without its number being compared equal to the expected one", w.Pos(c.Pos()))
+			}
+		}
+		r.Check(bad == "" && n >= 2, "R07.7", "method:(*streams/dns/util.InQueue).Append|in-order-release", w.Pos(fn.Pos()), fmt.Sprintf("%d release site(s), each under packet.SeqNo == NextSeqNo", n), bad+mapStr(n < 2, "expected the direct and the out-of-order release sites"))
+		// duplicate suppression: the first thing after the lock is the isAcked test that returns nil
+		isAcked := methodOf(inQ, "isAcked")
+		var ackCall ssa.Instruction
+		for _, c := range callsIn(fn) {
+			if sCallee(c) == isAcked {
+				ackCall = c
+			}
+		}
+		okDup := false
+		if ackCall != nil {
+			okDup = true
+			for _, c := range callsIn(fn) {
+				if sCallee(c) == ap && !dominatedByCond(fn, c, func(v ssa.Value) bool { return v == ackCall.(ssa.Value) }, false) {
+					okDup = false
+				}
+			}
+		}
+		r.Check(okDup, "R07.7", "method:(*streams/dns/util.InQueue).Append|duplicate-suppression", w.Pos(fn.Pos()), "every release is on the not-already-acknowledged edge", "a packet can be released although its number is in the acknowledged list (duplicates are delivered twice)")
+	}
+
+	// R07.8 addChunk: SeqNo of the new packet is NextSeqNo, then NextSeqNo += 1, under the mutex
+	if fn := w.SSAFunc(methodOf(outQ, "addChunk")); fn == nil {
+		r.Undecided("R07.8", "method:(*streams/dns/util.OutQueue).addChunk", "-", "anchor unresolved")
+	} else {
+		bad := ""
+		assigned, inc := false, false
+		region, _ := lockRegion(fn, func(v ssa.Value) bool { _, ok := v.(*ssa.FieldAddr); return ok })
+		allInstrs(fn, func(in ssa.Instruction) {
+			st, ok := in.(*ssa.Store)
+			if !ok {
+				return
+			}
+			fa, ok := st.Addr.(*ssa.FieldAddr)
+			if !ok {
+				return
+			}
+			switch fieldVarOf(fa) {
+			case seqF:
+				if isLoadOfField(st.Val, outNext) {
+					assigned = true
+				} else {
+					bad = fmt.Sprintf("%s: a new packet is not numbered with the queue's next sequence number", w.Pos(st.Pos()))
+				}
+				if !region[in] {
+					bad = fmt.Sprintf("%s: packet numbering happens outside the queue mutex", w.Pos(st.Pos()))
+				}
+				if ld, ok := st.Val.(ssa.Instruction); ok && !region[ld] {
+					bad = fmt.Sprintf("%s: the next sequence number is read outside the queue mutex: two concurrent writers can be given the same number", w.Pos(ld.Pos()))
+				}
+			case outNext:
+				bo, ok := st.Val.(*ssa.BinOp)
+				c, isC := int64(0), false
+				if ok {
+					c, isC = constIntVal(bo.Y)
+				}
+				if ok && bo.Op == token.ADD && isC && c == 1 && isLoadOfField(bo.X, outNext) {
+					inc = true
+				} else {
+					bad = fmt.Sprintf("%s: the next sequence number is not advanced by exactly one", w.Pos(st.Pos()))
+				}
+				if !region[in] {
+					bad = fmt.Sprintf("%s: the next sequence number is advanced outside the queue mutex", w.Pos(st.Pos()))
+				}
+			}
+		})
+		r.Check(bad == "" && assigned && inc, "R07.8", "method:(*streams/dns/util.OutQueue).addChunk", w.Pos(fn.Pos()), "new packet gets NextSeqNo, NextSeqNo advances by one, both under the mutex", bad+mapStr(!assigned || !inc, "numbering or increment not found"))
+	}
+
+	// R07.9 cleanAckedChunks removes a packet only when its number equals an acknowledged one; NextChunk returns the oldest
+	if fn := w.SSAFunc(methodOf(outQ, "cleanAckedChunks")); fn != nil {
+		outF := fieldOf(outQ, "out")
+		ackedF := fieldOf(outQ, "acked")
+		bad := ""
+		n := 0
+		allInstrs(fn, func(in ssa.Instruction) {
+			st, ok := in.(*ssa.Store)
+			if !ok {
+				return
+			}
+			fa, ok := st.Addr.(*ssa.FieldAddr)
+			if !ok || fieldVarOf(fa) != outF {
+				return
+			}
+			n++
+			guard := func(v ssa.Value) bool {
+				b, ok := v.(*ssa.BinOp)
+				if !ok || b.Op != token.EQL {
+					return false
+				}
+				isSeq := func(x ssa.Value) bool { fa := asFieldAddr(x); return fa != nil && fieldVarOf(fa) == seqF }
+				isAck := func(x ssa.Value) bool {
+					u, ok := x.(*ssa.UnOp)
+					if !ok {
+						return false
+					}
+					ia, ok := u.X.(*ssa.IndexAddr)
+					return ok && isLoadOfField(ia.X, ackedF)
+				}
+				return (isSeq(b.X) && isAck(b.Y)) || (isSeq(b.Y) && isAck(b.X))
+			}
+			if !dominatedByCond(fn, st, guard, true) {
+				bad = fmt.Sprintf("%s: a packet is removed from the out-queue without its number being equal to an acknowledged number", w.Pos(st.Pos()))
+			}
+		})
+		r.Check(bad == "" && n > 0, "R07.9", "method:(*streams/dns/util.OutQueue).cleanAckedChunks|retire", w.Pos(fn.Pos()), fmt.Sprintf("%d removal(s), each under packet.SeqNo == acked[i]", n), bad)
+	}
+	if fn := w.SSAFunc(methodOf(outQ, "NextChunk")); fn != nil {
+		outF := fieldOf(outQ, "out")
+		bad := ""
+		n := 0
+		allInstrs(fn, func(in ssa.Instruction) {
+			ret, ok := in.(*ssa.Return)
+			if !ok || isConstNil(ret.Results[0]) {
+				return
+			}
+			n++
+			okr := false
+			for _, root := range provenance(ret.Results[0], provOpts{}) {
+				if u, ok := root.(*ssa.UnOp); ok {
+					if ia, ok := u.X.(*ssa.IndexAddr); ok && isLoadOfField(ia.X, outF) {
+						if z, isC := constIntVal(ia.Index); isC && z == 0 {
+							okr = true
+						}
+					}
+				}
+			}
+			if !okr {
+				bad = fmt.Sprintf("%s: NextChunk does not return the oldest unacknowledged packet (out[0])", w.Pos(ret.Pos()))
+			}
+		})
+		r.Check(bad == "" && n > 0, "R07.9", "method:(*streams/dns/util.OutQueue).NextChunk|oldest-first", w.Pos(fn.Pos()), "returns out[0], the oldest unacknowledged packet", bad)
+	}
+
+	// R07.10 Write: a nil error is returned only as the result of waiting for the queue to drain
+	if fn := w.SSAFunc(methodOf(outQ, "Write")); fn != nil {
+		wait := methodOf(outQ, "waitEmptyQueue")
+		bad := ""
+		n := 0
+		enumPaths(fn, nil, func(in ssa.Instruction) bool {
+			c, ok := in.(ssa.CallInstruction)
+			return ok && (sCallee(c) == wait || sCallee(c) == methodOf(outQ, "addChunk"))
+		}, nil, func(e pathExit) {
+			ret, ok := e.Last.(*ssa.Return)
+			if !ok {
+				return
+			}
+			errv := e.State.Resolve(ret.Results[1])
+			if isNil, known := e.State.NilKnown(errv); known && !isNil {
+				return
+			}
+			// possibly-success return: if any chunk was added, the last event must be the drain wait and the error returned is its result
+			added := false
+			var last ssa.Instruction
+			for _, ev := range e.State.Events {
+				if sCallee(ev.(ssa.CallInstruction)) != wait {
+					added = true
+				}
+				last = ev
+			}
+			if !added {
+				return
+			}
+			n++
+			if last == nil || sCallee(last.(ssa.CallInstruction)) != wait {
+				bad = "Write can report success right after queueing chunks, without waiting until they were acknowledged"
+				return
+			}
+			if lv, ok := last.(ssa.Value); !ok || errv != lv {
+				bad = "Write does not return the result of waiting for the acknowledgements"
+			}
+		})
+		r.Check(bad == "" && n > 0, "R07.10", "method:(*streams/dns/util.OutQueue).Write|acked-before-success", w.Pos(fn.Pos()), fmt.Sprintf("%d path(s) that queued data return the result of waitEmptyQueue()", n), bad)
+	}
 }
